@@ -12,12 +12,14 @@ Has(e, f) == f \in DOMAIN e
 Hex(h) == BytesToHex(h)
 
 \* ---------------------------------------------------------------- C02: Table
-\* {"k":"Table","cells":[{b,x,r,l}],"roots":[..],"h":[hex],"hc":[hex],"hr":[hex]}
+\* {"k":"Table","cells":[{b,x,r,l}],"roots":[..],"h":[hex],"hc":[hex],"hc2":[hex],"hr":[hex]}
+\* h: fresh Hash(); hc: caching hasher, first request; hc2: the same hasher asked again; hr: Hash() after reads
 \* For well-formed DAGs every cell's reported hash (fresh, cached hasher, after reads) and level must be the
 \* specification's. DAGs that are not well-formed are outside the property's quantifier (NOTE printed).
 BadCells(e, T, I) == {i \in 1..Len(T) :
                         \/ Hex(ReprHash(I[i])) # e.h[i]
                         \/ Hex(ReprHash(I[i])) # e.hc[i]
+                        \/ Hex(ReprHash(I[i])) # e.hc2[i]
                         \/ Hex(ReprHash(I[i])) # e.hr[i]
                         \/ LevelOf(T[i].m) # e.cells[i].l}
 JudgeTable(e) ==
